@@ -80,7 +80,9 @@ def record_specs(draw, min_n=2, max_n=3000, small_max=48, kinds=None, amp_lo=-6,
     if allow_zero_runs and draw(st.integers(0, 5)) == 0:
         spec["trail0"] = draw(st.integers(1, 6))
     if allow_int and draw(st.integers(0, 3)) == 0:
-        spec["as"] = draw(st.sampled_from(["int", "list"]))
+        # container / memory-layout variants of the same record: integer dtype, python list, non-contiguous view,
+        # negative-stride view, read-only array (the last three hold exactly the float64 values)
+        spec["as"] = draw(st.sampled_from(["int", "list", "int", "list", "view", "negstride", "readonly"]))
     return spec
 
 
@@ -137,6 +139,17 @@ def as_container(spec, a):
         return np.array(np.round(a), dtype=np.int64)
     if how == "list":
         return [float(v) for v in a]
+    if how == "view":        # every other element of a twice-as-long buffer: non-contiguous
+        buf = np.empty(2 * len(a), dtype=float)
+        buf[0::2] = a
+        buf[1::2] = -12345.678
+        return buf[0::2]
+    if how == "negstride":   # reversed copy viewed backwards: negative stride
+        return np.array(a[::-1])[::-1]
+    if how == "readonly":
+        b = np.array(a, dtype=float)
+        b.flags.writeable = False
+        return b
     return a
 
 
